@@ -12,6 +12,8 @@ Lemma perm_pull1 {A} (h a b r : list A) : Permutation (h ++ (a ++ b) ++ r) (a ++
 Proof. aac_reflexivity. Qed.
 Lemma perm_pull2 {A} (h a b r : list A) : Permutation (h ++ (a ++ b) ++ r) (b ++ h ++ a ++ r).
 Proof. aac_reflexivity. Qed.
+Lemma perm_rot3 {A} (a b c : list A) : Permutation (a ++ b ++ c) ((c ++ a) ++ b).
+Proof. aac_reflexivity. Qed.
 Lemma perm_pull2' {A} (a b r : list A) : Permutation ((a ++ b) ++ r) (b ++ a ++ r).
 Proof. aac_reflexivity. Qed.
 
@@ -658,3 +660,360 @@ Proof.
       * intros y Hy. apply Hmk. apply (in_skipn _ _ _ Hy).
     + rewrite (nth_set_nth_other ck) by exact Hne. fold (get_lp w' i). rewrite (F10 i Hne). apply Hx. exact Hi.
 Qed.
+
+Lemma in_allprocs lps m : In m (allprocs lps) -> exists l, l < length lps /\ In (EProc m) (x_hist (nth l lps lpx_dummy)).
+Proof.
+  unfold allprocs. rewrite in_flat_map. intros (x & Hx & Hm). destruct (In_nth _ _ lpx_dummy Hx) as (l & Hl & E).
+  exists l. split; [exact Hl|]. rewrite E. apply in_procs. exact Hm.
+Qed.
+
+Record full (w : worker) : Prop := {
+  f_ok : all_ok2 p w; f_good : good w; f_err : k_err w = false; f_once : once w [];
+  f_extra : extra w; f_gvt : (k_gvt w <= k_lastgvt w)%Z }.
+
+Lemma process_msg_core w : full w -> length (k_lps w) = N.to_nat (p_lps p) ->
+  k_err (process_msg p ck w) = false /\ once (process_msg p ck w) [] /\
+  length (k_lps (process_msg p ck w)) = length (k_lps w) /\ extra (process_msg p ck w).
+Proof.
+  intros [Hok Hg He HL [Hxp Hxl] _] Hn. unfold process_msg.
+  pose proof (extract_spec w Hg) as Hex. pose proof (extract_perm w) as Hperm. pose proof (extract_frame w) as Hfr.
+  destruct (wq_extract w) as [[m|] w1]; cbn [snd] in Hfr; cbn zeta in Hfr; destruct Hfr as (Ef & Enx & Eg & Elps & Eerr & Eep).
+  2:{ split; [rewrite Eerr; exact He|]. split; [|split; [rewrite Elps; reflexivity|]].
+      - unfold once. rewrite Eg, Ef, Elps, Enx. eapply Loc_perm; [exact HL|exact Hperm|apply Permutation_refl|apply Permutation_refl].
+      - split; [intros y Hy; rewrite Elps; apply Hxp; apply (Permutation_in _ (Permutation_sym Hperm) Hy)|].
+        rewrite Elps. intros i Hi. unfold get_lp. rewrite Elps. apply Hxl. exact Hi. }
+  destruct Hex as (G1 & Hgm & _).
+  assert (Hmin : In m (pend w)) by (apply (Permutation_in _ (Permutation_sym Hperm)); left; reflexivity).
+  destruct (Hxp m Hmin) as [Hty Hdl]. set (l := N.to_nat (e_dest (wm_ev m))) in *.
+  assert (Ok1 : all_ok2 p w1) by (unfold all_ok2; rewrite Elps; exact Hok).
+  assert (Hl1 : l < length (k_lps w1)) by (rewrite Elps; exact Hdl).
+  assert (HL1 : Loc (k_gvt w1) (k_flags w1) (m :: pend w1) (allprocs (k_lps w1)) (allmarks (k_lps w1)) (k_next w1)).
+  { rewrite Eg, Ef, Elps, Enx. eapply Loc_perm; [exact HL|exact Hperm|apply Permutation_refl|apply Permutation_refl]. }
+  assert (Hx1 : forall i, i < length (k_lps w1) -> lp_extra (length (k_lps w1)) i (get_lp w1 i)) by (unfold get_lp; rewrite Elps; exact Hxl).
+  assert (He1 : k_err w1 = false) by (rewrite Eerr; exact He).
+  assert (Hgm1 : ge (k_gvt w1) m) by (unfold ge; rewrite Eg; exact Hgm).
+  destruct (lazy_fossil w1 l m Ok1 G1 He1 Hl1 HL1 Hgm1 Hx1) as (Ok2 & G2 & He2 & Elen2 & Ep2 & Eg2 & HL2 & Hx2).
+  set (w2 := if Nat.eqb (x_epoch (get_lp w1 l)) (k_epoch w1) then w1 else let w' := fossil_lp w1 l in put_lp w' l (fix_bound (get_lp w' l))) in *.
+  assert (Hl2 : l < length (k_lps w2)) by (rewrite Elen2; exact Hl1).
+  assert (Hlen2 : length (k_lps w2) = length (k_lps w)) by (rewrite Elen2, Elps; reflexivity).
+  assert (Hp2 : forall y, In y (pend w2) -> tyok y /\ N.to_nat (e_dest (wm_ev y)) < length (k_lps w2)).
+  { intros y Hy. rewrite Hlen2. apply Hxp. apply (Permutation_in _ (Permutation_sym Hperm)). right. rewrite <- Ep2. exact Hy. }
+  unfold flag_add. fold (fl (k_flags w2) m).
+  destruct (l_pd _ _ _ _ _ _ HL2 m (or_introl eq_refl)) as [[Hf Hin]|[[Hf|Hf] Hnin]]; rewrite Hf.
+  - (* flag 3: the cancellation notice of a message this LP has processed *)
+    change (has 3 FLAG_ANTI) with true. change (N.eqb 3 (FLAG_ANTI + FLAG_PROC)) with true. change (m32 (3 + FLAG_PROC)) with 5%N. cbn iota.
+    set (w3 := set_flags w2 (flag_set (k_flags w2) (wm_id m) 5)).
+    destruct (Loc_extract3 _ _ _ _ _ _ _ HL2 Hf) as [_ HL3].
+    assert (Hmh : In (EProc m) (x_hist (get_lp w3 l))).
+    { destruct (in_allprocs _ _ Hin) as (l' & Hl' & Hm'). fold (get_lp w2 l') in Hm'.
+      destruct (Hx2 l' Hl') as (_ & _ & Hd' & _). assert (El' : l' = l) by (symmetry; exact (Hd' m Hm')). subst l'. exact Hm'. }
+    pose proof (anti_index_total m _ Hmh) as Hsome.
+    destruct (anti_index m (x_hist (get_lp w3 l))) as [past|] eqn:Ea; [|congruence].
+    assert (Ok3 : all_ok2 p w3) by exact Ok2. assert (G3 : good w3) by (apply set_flags_good; exact G2).
+    destruct (get_ok2 p w3 l Ok3 Hl2) as [Hlok Hlwf].
+    pose proof (anti_ge_base m (get_lp w3 l) past Hlok (proj1 (Hx2 l Hl2)) Hty Ea) as Hbp.
+    destruct (anti_index_bnd m _ _ Ea) as [Hbnd Hple].
+    destruct (anti_index_spec ck m _ _ Ea) as (j & Hkj & Hnj & Hsent).
+    pose proof (anti_undone_ge _ past j m (proj1 (get_time w3 l G3 Hl2)) Hkj Hnj Hsent) as Hund.
+    destruct (do_rollback_once w3 l past (tm m) [] Ok3 Hl2 Hbnd Hbp Hple) as (R1 & R2 & R3 & R4 & R5); [unfold ge in Hgm1; cbn [w3 set_flags k_gvt]; rewrite Eg2; exact Hgm1|exact Hund|exact HL3|].
+    destruct (do_rollback_extra w3 l past Ok3 Hl2 (conj Hp2 Hx2) Hbp) as [X1 X2].
+    set (w4 := do_rollback p w3 l past) in *.
+    assert (Hl4 : l < length (k_lps w4)) by (rewrite X2; exact Hl2).
+    destruct (put_same_hist w4 l (fix_bound (get_lp w4 l)) Hl4 (fix_bound_hist _)) as [Epp Emm].
+    split; [cbn [put_lp set_lps k_err]; rewrite R1; exact He2|]. split; [|split].
+    + unfold once. rewrite Epp, Emm. exact R2.
+    + cbn [put_lp set_lps k_lps]. rewrite set_nth_length, X2. exact Hlen2.
+    + destruct X1 as [X1p X1l]. split; [intros y Hy; cbn [put_lp set_lps k_lps]; rewrite set_nth_length; apply X1p; exact Hy|].
+      cbn [put_lp set_lps k_lps]. rewrite set_nth_length. intros i Hi. unfold get_lp at 1. cbn [put_lp set_lps k_lps].
+      destruct (Nat.eq_dec i l) as [->|Hne]; [rewrite nth_set_nth by exact Hl4; apply fix_bound_extra; apply X1l; exact Hl4|].
+      rewrite (nth_set_nth_other ck) by exact Hne. apply X1l. exact Hi.
+  - (* flag 0: an ordinary message, possibly a straggler *)
+    change (has 0 FLAG_ANTI) with false. change (m32 (0 + FLAG_PROC)) with 2%N. cbn iota.
+    set (w3 := set_flags w2 (flag_set (k_flags w2) (wm_id m) 2)).
+    pose proof (Loc_extract0 _ _ _ _ _ _ _ HL2 Hf) as HL3.
+    assert (Ok3 : all_ok2 p w3) by exact Ok2. assert (G3 : good w3) by (apply set_flags_good; exact G2).
+    set (x := get_lp w3 l).
+    set (strag := match last_proc (x_hist x) with Some lastm => (Z.of_N (e_t (wm_ev m)) <=? x_bound x)%Z && wbefore (k_flags w3) m lastm | None => false end).
+    set (w4 := if strag then do_rollback p w3 l (straggler_index (k_flags w3) m (x_hist x)) else w3).
+    assert (H4 : all_ok2 p w4 /\ k_err w4 = false /\ once w4 [m] /\ extra w4 /\ length (k_lps w4) = length (k_lps w2)).
+    { unfold w4. destruct strag eqn:Es.
+      - unfold strag in Es. destruct (last_proc (x_hist x)) as [lastm|] eqn:El; [|discriminate].
+        apply andb_true_iff in Es. destruct Es as [_ Ew].
+        destruct (straggler_index_spec (k_flags w3) m (x_hist x) lastm El Ew) as [Habove _]. cbn zeta in Habove.
+        destruct (get_ok2 p w3 l Ok3 Hl2) as [Hlok Hlwf]. fold x in Hlok, Hlwf.
+        assert (Hf3 : fl (k_flags w3) m = 2%N) by (unfold w3; cbn [set_flags k_flags]; apply fl_set_same).
+        pose proof (straggler_ge_base (k_flags w3) m x lastm Hlok (proj1 (Hx2 l Hl2)) Hf3 Hty El Ew) as Hbk.
+        destruct (straggler_index_bnd (k_flags w3) m (x_hist x)) as [Hbnd Hkle].
+        set (k := straggler_index (k_flags w3) m (x_hist x)) in *.
+        destruct (do_rollback_once w3 l k (tm m) [m] Ok3 Hl2 Hbnd Hbk Hkle) as (R1 & R2 & R3 & R4 & R5);
+          [unfold ge in Hgm1; cbn [w3 set_flags k_gvt]; rewrite Eg2; exact Hgm1|intros m' Hm'; apply (wbefore_le (k_flags w3)); apply Habove; exact Hm'|exact HL3|].
+        destruct (do_rollback_extra w3 l k Ok3 Hl2 (conj Hp2 Hx2) Hbk) as [X1 X2].
+        split; [apply do_rollback_ok2; [exact Ok3|intros _; exact Hbnd]|]. split; [rewrite R1; exact He2|]. split; [exact R2|]. split; [exact X1|exact X2].
+      - split; [exact Ok3|]. split; [exact He2|]. split; [exact HL3|]. split; [exact (conj Hp2 Hx2)|reflexivity]. }
+    destruct H4 as (Ok4 & He4 & HL4 & X4 & Elen4).
+    assert (Hl4 : l < length (k_lps w4)) by (rewrite Elen4; exact Hl2).
+    destruct (forward_once w4 l m Hl4 HL4) as [HL5 _].
+    destruct (forward_extra w4 l m Ok4 Hl4 ltac:(rewrite Elen4, Hlen2; exact Hn) X4 Hty eq_refl) as [X5 Elen5].
+    split; [rewrite (forward_err p ck); exact He4|]. split; [exact HL5|]. split; [rewrite Elen5, Elen4; exact Hlen2|exact X5].
+  - (* flag 1: cancelled while pending: dropped *)
+    change (has 1 FLAG_ANTI) with true. change (N.eqb 1 (FLAG_ANTI + FLAG_PROC)) with false. change (m32 (1 + FLAG_PROC)) with 3%N. cbn iota.
+    set (w3 := set_flags w2 (flag_set (k_flags w2) (wm_id m) 3)).
+    pose proof (Loc_extract1 _ _ _ _ _ _ _ HL2 Hf) as HL3.
+    destruct (put_same_hist w3 l (fix_bound (get_lp w3 l)) Hl2 (fix_bound_hist _)) as [Epp Emm].
+    split; [exact He2|]. split; [unfold once; rewrite Epp, Emm; exact HL3|].
+    split; [cbn [put_lp set_lps k_lps]; rewrite set_nth_length; exact Hlen2|].
+    split; [intros y Hy; cbn [put_lp set_lps k_lps]; rewrite set_nth_length; apply Hp2; exact Hy|].
+    cbn [put_lp set_lps k_lps]. rewrite set_nth_length. intros i Hi. unfold get_lp at 1. cbn [put_lp set_lps k_lps].
+    destruct (Nat.eq_dec i l) as [->|Hne]; [rewrite nth_set_nth by exact Hl2; apply fix_bound_extra; apply Hx2; exact Hl2|].
+    rewrite (nth_set_nth_other ck) by exact Hne. apply Hx2. exact Hi.
+Qed.
+
+(* ---------- GVT bookkeeping is only touched by the announcement ---------- *)
+Definition gv (w : worker) : Z * Z := (k_gvt w, k_lastgvt w).
+Lemma do_rollback_gv w l past : gv (do_rollback p w l past) = gv w.
+Proof.
+  unfold do_rollback, gv. destruct (undo_all_frame (skipn past (x_hist (get_lp w l))) w) as (B1 & _ & _ & _ & B5 & _). cbn zeta in *.
+  destruct (drop_newer _ _) as [|[ref snap] older]; cbn; rewrite B1, B5; reflexivity.
+Qed.
+Lemma fossil_gv w l : gv (fossil_lp w l) = gv w.
+Proof. unfold fossil_lp, gv. destruct (newest_below _ _ _); [|reflexivity]. destruct (drop_newer _ _) as [|[ref snap] older]; reflexivity. Qed.
+Lemma forward_gv w l m : gv (forward p ck w l m) = gv w.
+Proof.
+  unfold forward, gv. destruct (handle p (wm_ev m) (x_st (get_lp w l))) as [st' outs].
+  destruct (send_all_frame outs w []) as (B1 & _ & _ & _ & B5 & _). cbn zeta in *.
+  destruct (send_all w outs []) as [w1 marks]. cbn [fst] in *. cbn. rewrite B1, B5. reflexivity.
+Qed.
+Lemma extract_gv w : gv (snd (wq_extract w)) = gv w.
+Proof. unfold wq_extract, gv. destruct (heap_extract _ _ _ _) as [[m h']|]; reflexivity. Qed.
+Lemma process_msg_gv w : gv (process_msg p ck w) = gv w.
+Proof.
+  unfold process_msg. pose proof (extract_gv w) as E1. destruct (wq_extract w) as [[m|] w1]; cbn [snd] in E1; [|exact E1].
+  set (l := N.to_nat (e_dest (wm_ev m))).
+  set (w2 := if Nat.eqb (x_epoch (get_lp w1 l)) (k_epoch w1) then w1 else let w' := fossil_lp w1 l in put_lp w' l (fix_bound (get_lp w' l))).
+  assert (E2 : gv w2 = gv w).
+  { unfold w2. destruct (Nat.eqb _ _); [exact E1|]. cbn zeta. change (gv (put_lp ?a _ _)) with (gv a). rewrite fossil_gv. exact E1. }
+  destruct (flag_add (k_flags w2) (wm_id m) FLAG_PROC) as [o f].
+  destruct (has o FLAG_ANTI).
+  - change (gv (put_lp ?a _ _)) with (gv a). destruct (N.eqb o (FLAG_ANTI + FLAG_PROC)); [|exact E2].
+    destruct (anti_index m _); [rewrite do_rollback_gv|]; exact E2.
+  - rewrite forward_gv. destruct (match last_proc _ with Some _ => _ | None => false end); [rewrite do_rollback_gv|]; exact E2.
+Qed.
+
+Lemma process_msg_full w : full w -> length (k_lps w) = N.to_nat (p_lps p) ->
+  full (process_msg p ck w) /\ length (k_lps (process_msg p ck w)) = length (k_lps w).
+Proof.
+  intros Hf Hn. destruct (process_msg_core w Hf Hn) as (C1 & C2 & C3 & C4). destruct Hf as [Hok Hg He HL Hx Hgv].
+  split; [|exact C3]. constructor; try assumption.
+  - apply process_msg_ok2. exact Hok.
+  - apply (process_msg_good p ck H_time); assumption.
+  - pose proof (process_msg_gv w) as E. unfold gv in E. injection E as -> ->. exact Hgv.
+Qed.
+
+(* operations that only move pending messages around *)
+Lemma full_perm w w' : full w -> good w' -> Permutation (pend w) (pend w') -> k_flags w' = k_flags w -> k_lps w' = k_lps w ->
+  k_next w' = k_next w -> gv w' = gv w -> k_err w' = k_err w -> full w'.
+Proof.
+  intros [Hok Hg He HL [Hxp Hxl] Hgv] Hg' Hp Ef El En Eg Ee. unfold gv in Eg. injection Eg as Eg1 Eg2.
+  constructor.
+  - unfold all_ok2. rewrite El. exact Hok.
+  - exact Hg'.
+  - rewrite Ee. exact He.
+  - unfold once. rewrite Eg1, Ef, El, En. eapply Loc_perm; [exact HL|exact Hp|apply Permutation_refl|apply Permutation_refl].
+  - split; [intros y Hy; rewrite El; apply Hxp; apply (Permutation_in _ (Permutation_sym Hp) Hy)|].
+    rewrite El. intros i Hi. unfold get_lp. rewrite El. apply Hxl. exact Hi.
+  - rewrite Eg1, Eg2. exact Hgv.
+Qed.
+
+Lemma heldl_app a b : heldl (a ++ b) = heldl a ++ heldl b.
+Proof. apply flat_map_app. Qed.
+
+Lemma hold_frame k : forall w, Permutation (pend w) (pend (hold k w)) /\ k_flags (hold k w) = k_flags w /\ k_lps (hold k w) = k_lps w /\
+  k_next (hold k w) = k_next w /\ gv (hold k w) = gv w /\ k_err (hold k w) = k_err w.
+Proof.
+  induction k as [|k IH]; intros w; cbn [hold]; [repeat split; apply Permutation_refl|].
+  pose proof (extract_perm w) as Hp. pose proof (extract_frame w) as Hfr. pose proof (extract_gv w) as Hgv.
+  destruct (wq_extract w) as [[m|] w1]; cbn [snd] in *; cbn zeta in Hfr; destruct Hfr as (Ef & Enx & Eg & Elps & Eerr & Eep).
+  - destruct (IH (set_held w1 (k_held w1 ++ [Some m]))) as (I1 & I2 & I3 & I4 & I5 & I6).
+    split; [|rewrite I2, I3, I4, I5, I6; repeat split; assumption].
+    eapply perm_trans; [exact Hp|]. eapply perm_trans; [|exact I1].
+    unfold pend. cbn [set_held k_shared k_heap k_held]. rewrite heldl_app. cbn [heldl flat_map app].
+    rewrite !app_assoc. apply Permutation_cons_append.
+  - repeat split; assumption.
+Qed.
+
+Lemma set_nth_none_perm hs : forall j m, nth j hs None = Some m -> Permutation (m :: heldl (set_nth hs j None)) (heldl hs).
+Proof.
+  induction hs as [|h r IH]; intros j m Hn; [destruct j; discriminate|]. destruct j as [|j]; cbn [nth set_nth] in *.
+  - subst h. cbn. apply Permutation_refl.
+  - specialize (IH j m Hn). destruct h as [a|].
+    + change (heldl (Some a :: ?t)) with (a :: heldl t). eapply perm_trans; [apply perm_swap|]. apply perm_skip. exact IH.
+    + change (heldl (None :: ?t)) with (heldl t). exact IH.
+Qed.
+
+Lemma unhold_frame i w : Permutation (pend w) (pend (unhold i w)) /\ k_flags (unhold i w) = k_flags w /\ k_lps (unhold i w) = k_lps w /\
+  k_next (unhold i w) = k_next w /\ gv (unhold i w) = gv w /\ k_err (unhold i w) = k_err w.
+Proof.
+  unfold unhold. destruct (k_held w) as [|h0 hs0] eqn:Eh; [repeat split; apply Permutation_refl|].
+  set (hs := h0 :: hs0) in *. set (j := i mod length hs).
+  destruct (nth j hs None) as [m|] eqn:En; [|repeat split; apply Permutation_refl].
+  split; [|repeat split; reflexivity].
+  unfold pend. cbn [wq_insert set_held k_shared k_heap k_held]. rewrite Eh. fold hs. cbn [app].
+  apply Permutation_sym. eapply perm_trans; [apply Permutation_middle|]. apply Permutation_app_head.
+  eapply perm_trans; [apply Permutation_middle|]. apply Permutation_app_head. apply set_nth_none_perm. exact En.
+Qed.
+
+Lemma unhold_all_frame w : Permutation (pend w) (pend (unhold_all w)) /\ k_flags (unhold_all w) = k_flags w /\ k_lps (unhold_all w) = k_lps w /\
+  k_next (unhold_all w) = k_next w /\ gv (unhold_all w) = gv w /\ k_err (unhold_all w) = k_err w.
+Proof.
+  unfold unhold_all.
+  assert (G : forall hs w0, let w1 := fold_left (fun w' h => match h with Some m => wq_insert w' m | None => w' end) hs w0 in
+              Permutation (heldl hs ++ k_shared w0) (k_shared w1) /\ k_heap w1 = k_heap w0 /\ k_held w1 = k_held w0 /\ k_flags w1 = k_flags w0 /\
+              k_lps w1 = k_lps w0 /\ k_next w1 = k_next w0 /\ gv w1 = gv w0 /\ k_err w1 = k_err w0).
+  { induction hs as [|h r IH]; intros w0; cbn [fold_left]; [cbn; repeat split; apply Permutation_refl|].
+    destruct h as [m|]; [|apply IH].
+    destruct (IH (wq_insert w0 m)) as (I1 & I2 & I3 & I4 & I5 & I6 & I7 & I8). cbn zeta in *.
+    split; [|repeat split; assumption]. eapply perm_trans; [|exact I1]. cbn [wq_insert k_shared heldl flat_map app]. apply Permutation_middle. }
+  destruct (G (k_held w) w) as (I1 & I2 & I3 & I4 & I5 & I6 & I7 & I8). cbn zeta in *.
+  split; [|repeat split; assumption].
+  unfold pend. cbn [set_held k_shared k_heap k_held heldl flat_map]. rewrite I2, app_nil_r.
+  eapply perm_trans; [|apply Permutation_app_tail; exact I1]. apply perm_rot3.
+Qed.
+
+Lemma transfer_full w : full w -> full (wq_transfer w).
+Proof.
+  intros Hf. apply (full_perm w); try reflexivity; [exact Hf|apply transfer_good; apply (f_good _ Hf)|apply Permutation_sym; apply transfer_perm].
+Qed.
+
+Lemma announce_full d w : full w -> full (announce d w) /\ k_lps (announce d w) = k_lps w.
+Proof.
+  intros Hf. destruct (announce_good d w (f_good _ Hf)) as [Hg He].
+  pose proof (transfer_full w Hf) as Hf1.
+  unfold announce, wq_peek in *. set (w1 := wq_transfer w) in *.
+  destruct (min_held (k_held w1) (match k_heap w1 with [] => None | m :: _ => Some (e_t (wm_ev m)) end)) as [t|]; [|split; [exact Hf1|reflexivity]].
+  destruct (Z.ltb_spec (Z.of_N t - Z.of_N d) (k_lastgvt w1)) as [Hlt|Hge]; cbn [orb]; [split; [exact Hf1|reflexivity]|].
+  destruct (Z.leb (Z.of_N t - Z.of_N d) 0); [split; [exact Hf1|reflexivity]|].
+  split; [|reflexivity].
+  destruct Hf1 as [Hok _ He1 HL [Hxp Hxl] Hgv]. constructor; cbn [k_gvt k_lastgvt k_err k_lps]; try assumption.
+  - unfold once in *. cbn [k_gvt k_flags k_lps k_next]. eapply Loc_gvt; [exact HL|lia].
+  - split; [exact Hxp|exact Hxl].
+  - lia.
+Qed.
+
+Lemma iter_full n : forall w, full w -> length (k_lps w) = N.to_nat (p_lps p) ->
+  full (iter n (process_msg p ck) w) /\ length (k_lps (iter n (process_msg p ck) w)) = length (k_lps w).
+Proof.
+  induction n as [|n IH]; intros w Hf Hn; cbn [iter]; [split; [exact Hf|reflexivity]|].
+  destruct (process_msg_full w Hf Hn) as [Hf' Hl']. destruct (IH _ Hf' ltac:(rewrite Hl'; exact Hn)) as [H1 H2].
+  split; [exact H1|rewrite H2; exact Hl'].
+Qed.
+
+Lemma run_out_full fuel : forall w, full w -> length (k_lps w) = N.to_nat (p_lps p) ->
+  full (fst (run_out p ck fuel w)) /\ length (k_lps (fst (run_out p ck fuel w))) = length (k_lps w).
+Proof.
+  induction fuel as [|fuel IH]; intros w Hf Hn; cbn [run_out]; [split; [exact Hf|reflexivity]|].
+  unfold wq_peek. pose proof (transfer_full w Hf) as Hf1. set (w1 := wq_transfer w) in *.
+  assert (Hl1 : length (k_lps w1) = length (k_lps w)) by reflexivity.
+  destruct (k_heap w1); cbn [fst]; [split; [exact Hf1|exact Hl1]|].
+  destruct (process_msg_full w1 Hf1 ltac:(rewrite Hl1; exact Hn)) as [Hf' Hl'].
+  destruct (IH _ Hf' ltac:(rewrite Hl', Hl1; exact Hn)) as [H1 H2]. split; [exact H1|rewrite H2, Hl'; exact Hl1].
+Qed.
+
+Lemma wstep_full w o : full w -> length (k_lps w) = N.to_nat (p_lps p) ->
+  full (wstep p ck w o) /\ length (k_lps (wstep p ck w o)) = length (k_lps w).
+Proof.
+  intros Hf Hn. destruct o as [n|k|i| |d|fuel]; cbn [wstep].
+  - apply iter_full; assumption.
+  - destruct (hold_frame k w) as (F1 & F2 & F3 & F4 & F5 & F6).
+    split; [|rewrite F3; reflexivity]. apply (full_perm w); try assumption. apply (hold_good k w (f_good _ Hf)).
+  - destruct (unhold_frame i w) as (F1 & F2 & F3 & F4 & F5 & F6).
+    split; [|rewrite F3; reflexivity]. apply (full_perm w); try assumption. apply (unhold_good i w (f_good _ Hf)).
+  - destruct (unhold_all_frame w) as (F1 & F2 & F3 & F4 & F5 & F6).
+    split; [|rewrite F3; reflexivity]. apply (full_perm w); try assumption. apply (unhold_all_good w (f_good _ Hf)).
+  - destruct (announce_full d w Hf) as [H1 H2]. split; [exact H1|rewrite H2; reflexivity].
+  - destruct (unhold_all_frame w) as (F1 & F2 & F3 & F4 & F5 & F6).
+    assert (Hf1 : full (unhold_all w)) by (apply (full_perm w); try assumption; apply (unhold_all_good w (f_good _ Hf))).
+    destruct (run_out_full fuel (unhold_all w) Hf1 ltac:(rewrite F3; exact Hn)) as [H1 H2].
+    split; [exact H1|rewrite H2, F3; reflexivity].
+Qed.
+
+(* ---------- initialisation ---------- *)
+Hypothesis H_init : forall me e, In e (snd (lp_init p me)) -> e_dest e = me /\ (e_type e < LP_INIT_TYPE)%N.
+
+Definition ini (w : worker) : Prop := once w [] /\ extra w /\ k_err w = false /\ gv w = (0%Z, 0%Z).
+
+Lemma lp_extra_mono n n' l x : n <= n' -> lp_extra n l x -> lp_extra n' l x.
+Proof. intros Hn (A & B & C & D). repeat split; try assumption; destruct (D m H); [assumption|lia]. Qed.
+
+Lemma allprocs_snoc lps x : allprocs (lps ++ [x]) = allprocs lps ++ procs_of (x_hist x).
+Proof. unfold allprocs. rewrite flat_map_app. cbn. rewrite app_nil_r. reflexivity. Qed.
+Lemma allmarks_snoc lps x : allmarks (lps ++ [x]) = allmarks lps ++ marks_of (x_hist x).
+Proof. unfold allmarks. rewrite flat_map_app. cbn. rewrite app_nil_r. reflexivity. Qed.
+
+Lemma init_lp_ini w : ini w -> ini (init_lp p w (length (k_lps w))) /\ length (k_lps (init_lp p w (length (k_lps w)))) = S (length (k_lps w)).
+Proof.
+  intros (HL & [Hxp Hxl] & He & Hgv). set (l := length (k_lps w)). unfold init_lp.
+  pose proof (H_init (N.of_nat l)) as Hin.
+  destruct (lp_init p (N.of_nat l)) as [st evs]. cbn [snd] in Hin.
+  set (im := mkWm (k_next w) (mkEv (N.of_nat l) 0 LP_INIT_TYPE [])).
+  match goal with |- context [send_all ?w0 evs []] => set (w0' := w0) end.
+  assert (HL0 : Loc (k_gvt w0') (k_flags w0') (pend w0') (im :: allprocs (k_lps w)) (allmarks (k_lps w)) (k_next w0')).
+  { unfold w0'. cbn [k_gvt k_flags k_next]. change (pend _) with (pend w). apply Loc_fresh_proc. exact HL. }
+  destruct (send_all_once evs w0' [] _ _ HL0) as (news & E1 & E2 & E3 & E4).
+  pose proof (send_all_lps evs w0' []) as Elps.
+  destruct (send_all_frame evs w0' []) as (B1 & _ & _ & _ & B5 & B6 & _). cbn zeta in *.
+  destruct (send_all w0' evs []) as [w1 marks]. cbn [fst snd rev app] in *. subst marks.
+  change (k_lps w0') with (k_lps w) in Elps.
+  assert (Hnews : forall y, In y news -> tyok y /\ N.to_nat (e_dest (wm_ev y)) = l).
+  { intros y Hy. destruct (Hin (wm_ev y) ltac:(rewrite <- E2; apply in_map; exact Hy)) as [Hd Ht]. split; [exact Ht|rewrite Hd; apply Nat2N.id]. }
+  cbn [set_lps k_lps]. rewrite Elps. split. 2:{ rewrite app_length. cbn [length]. fold l. lia. }
+  split; [|split; [|split]].
+  - unfold once. cbn [set_lps k_gvt k_flags k_lps k_next app]. change (pend (set_lps w1 _)) with (pend w1).
+    rewrite allprocs_snoc, allmarks_snoc. cbn [x_hist]. rewrite procs_app, marks_app, procs_map_sent, marks_map_sent. cbn [app procs_of marks_of flat_map].
+    rewrite app_nil_r. eapply Loc_perm; [exact E4|apply Permutation_refl|apply Permutation_cons_append|apply Permutation_app_comm].
+  - split.
+    + intros y Hy. cbn [set_lps k_lps]. rewrite app_length. cbn [length]. fold l. change (pend (set_lps w1 _)) with (pend w1) in Hy.
+      apply E3 in Hy. destruct Hy as [Hy|Hy]; [destruct (Hnews y Hy) as [H1 H2]; split; [exact H1|lia]|].
+      change (pend w0') with (pend w) in Hy. destruct (Hxp y Hy) as [H1 H2]. split; [exact H1|fold l in H2; lia].
+    + cbn [set_lps k_lps]. rewrite app_length. cbn [length]. fold l. intros i Hi. unfold get_lp. cbn [set_lps k_lps].
+      destruct (Nat.lt_ge_cases i l) as [Hlt|Hge].
+      * rewrite app_nth1 by exact Hlt. apply (lp_extra_mono l); [lia|]. apply Hxl. exact Hlt.
+      * assert (i = l) by lia. subst i. rewrite app_nth2 by (fold l; lia). fold l. rewrite Nat.sub_diag. cbn [nth].
+        unfold lp_extra, lp_base, base. cbn [x_logs x_hist last fst].
+        split; [right; exists (map ESent news), im; split; [apply firstn_all|]; split; [|repeat split; reflexivity]|].
+        { unfold all_sent. apply Forall_forall. intros e He'. apply in_map_iff in He'. destruct He' as (z & <- & _). reflexivity. }
+        split; [rewrite skipn_all; intros m []|]. split.
+        -- intros m Hm. apply in_app_or in Hm. destruct Hm as [Hm|[Hm|[]]]; [apply in_map_iff in Hm; destruct Hm as (z & Hz & _); discriminate|].
+           injection Hm as <-. cbn. lia.
+        -- intros m Hm. apply in_app_or in Hm. destruct Hm as [Hm|[Hm|[]]]; [|discriminate].
+           apply in_map_iff in Hm. destruct Hm as (z & Hz & Hzin). injection Hz as ->. destruct (Hnews m Hzin) as [H1 H2]. split; [exact H1|lia].
+  - cbn [set_lps k_err]. rewrite B6. exact He.
+  - unfold gv in *. cbn [set_lps k_gvt k_lastgvt]. rewrite B1, B5. exact Hgv.
+Qed.
+
+Lemma w_init_ini : ini (w_init p) /\ length (k_lps (w_init p)) = N.to_nat (p_lps p).
+Proof.
+  unfold w_init. set (w0 := mkWk (PositiveMap.empty N) [] [] [] [] 1%positive 0 0 0 false).
+  assert (H0 : ini w0).
+  { split; [apply Loc_empty|]. split; [split; [intros m []|intros l Hl; cbn in Hl; lia]|]. split; reflexivity. }
+  assert (G : forall k w, ini w -> ini (fold_left (init_lp p) (seq (length (k_lps w)) k) w) /\
+                         length (k_lps (fold_left (init_lp p) (seq (length (k_lps w)) k) w)) = length (k_lps w) + k).
+  { induction k as [|k IH]; intros w Hw; cbn [seq fold_left]; [split; [exact Hw|lia]|].
+    destruct (init_lp_ini w Hw) as [H1 H2]. rewrite <- H2. destruct (IH _ H1) as [H3 H4]. split; [exact H3|rewrite H4, H2; lia]. }
+  destruct (G (N.to_nat (p_lps p)) w0 H0) as [H1 H2]. split; [exact H1|exact H2].
+Qed.
+
+Theorem w_init_full : full (w_init p) /\ length (k_lps (w_init p)) = N.to_nat (p_lps p).
+Proof.
+  destruct w_init_ini as [(HL & Hx & He & Hg) Hn]. split; [|exact Hn].
+  destruct (w_init_safe p H_time) as [Hok Hgood]. unfold gv in Hg. injection Hg as Hg1 Hg2.
+  constructor; try assumption; [apply Hgood; exact He|rewrite Hg1, Hg2; lia].
+Qed.
+
+Theorem worker_full (ops : list wop) :
+  full (fold_left (wstep p ck) ops (w_init p)) /\ length (k_lps (fold_left (wstep p ck) ops (w_init p))) = N.to_nat (p_lps p).
+Proof.
+  generalize w_init_full. generalize (w_init p). induction ops as [|o ops IH]; intros w [Hf Hn]; cbn [fold_left]; [split; assumption|].
+  destruct (wstep_full w o Hf Hn) as [H1 H2]. apply IH. split; [exact H1|rewrite H2; exact Hn].
+Qed.
+
+End OnceProofs.
